@@ -22,7 +22,7 @@ Lit(n) == [i \in 1..n |-> "lit"]
 RefConfigs ==
   {[site |-> "refs", fields |-> <<i>>, kinds |-> Lit(1)] : i \in RefIdx}
   \cup {[site |-> "refs", fields |-> <<i, j>>, kinds |-> Lit(2)] : i \in RefIdx, j \in RefIdx}
-  \cup {[site |-> "refs", fields |-> <<i, Nxt(i, 0) % NPlain + 1, j>>, kinds |-> Lit(3)] : i \in RefIdx, j \in RefIdx}
+  \cup {[site |-> "refs", fields |-> <<i, (Nxt(i, 0) % NPlain) + 1, j>>, kinds |-> Lit(3)] : i \in RefIdx, j \in RefIdx}
   \cup (IF Full THEN {[site |-> "refs", fields |-> <<i, j, k>>, kinds |-> Lit(3)] : i \in RefIdx, j \in RefIdx, k \in RefIdx} ELSE {})
 MCConfigs == {c \in Singles \cup Pairs \cup Triples : OkConfig(c) /\ Distinct(c)} \cup {c \in RefConfigs : OkConfig(c)}
 =============================================================================
